@@ -314,6 +314,27 @@ def h_rtcp_wire(ctx, form):
     elif form == "rr-bye-reason":
         data = rr + bye
         want["S1"], want["R1"] = ["RtcpRrPacket"], ["RtcpByePacket"]
+    elif form == "unroutable-rr-then-nack":
+        # the first packet reports on an SSRC nobody is registered for; the second is for S1
+        unknown = ctx.int("unknown_ssrc", 0, U32)
+        ctx.assume(unknown != s_ssrc, "an SSRC without a registered sender")
+        data = sx.to_bytes(RtcpRrPacket(ssrc=r_ssrc, reports=[_rinfo(unknown)])) + sx.to_bytes(RtcpRtpfbPacket(fmt=1, ssrc=1, media_ssrc=s_ssrc, lost=[7]))
+        want["S1"] = ["RtcpRtpfbPacket"]
+    elif form == "sr-two-reports":
+        # a sender report with two report blocks; the second one is about S1
+        unknown = ctx.int("unknown_ssrc", 0, U32)
+        ctx.assume(unknown != s_ssrc, "an SSRC without a registered sender")
+        data = sx.to_bytes(RtcpSrPacket(ssrc=r_ssrc, sender_info=RtcpSenderInfo(ctx.int("ntp", 0, (1 << 64) - 1), ctx.int("rtp_ts", 0, U32), 5, 500), reports=[_rinfo(unknown), _rinfo(s_ssrc)]))
+        want["S1"], want["R1"] = ["RtcpSrPacket"], ["RtcpSrPacket"]
+    elif form == "remb-two-ssrcs":
+        unknown = ctx.int("unknown_ssrc", 0, U32)
+        ctx.assume(unknown != s_ssrc, "an SSRC without a registered sender")
+        ctx.assume(s_ssrc != 0, "media_ssrc 0 of a REMB addresses nobody here")
+        data = sx.to_bytes(RtcpPsfbPacket(fmt=15, ssrc=r_ssrc, media_ssrc=0, fci=rtp.pack_remb_fci(ctx.int("rate", 0, 0x3FFFF), [unknown, s_ssrc])))
+        want["S1"] = ["RtcpPsfbPacket"]
+    elif form == "sdes-then-bye":
+        data = sx.to_bytes(RtcpSdesPacket(chunks=[RtcpSourceInfo(ssrc=r_ssrc, items=[(1, b"x")])])) + sx.to_bytes(RtcpByePacket(sources=[o_ssrc]))
+        want["R2"] = ["RtcpByePacket"]
     else:  # padded RR followed by nothing
         data = bytes([0xA1, 201, 0, 8]) + rr[4:] + b"\x00\x00\x00\x04"
         want["S1"] = ["RtcpRrPacket"]
@@ -358,7 +379,7 @@ ENC = [
 ]
 
 HARNESSES = {
-    "rtcp-wire": Harness("rtcp-wire", h_rtcp_wire, lambda tier: [{"form": f} for f in ("bye-reason", "rr-bye-reason", "padded-rr")], style="STEP", bounds="one datagram in each of three legal wire forms the library never produces itself (BYE with reason text, alone and after an RR; padded RR); one sender and two receivers with symbolic SSRCs", encoded=["aiortc.rtcdtlstransport:RTCDtlsTransport._handle_rtcp_data", "aiortc.rtcdtlstransport:RtpRouter.route_rtcp", "aiortc.rtp:RtcpPacket.parse", "aiortc.rtp:RtcpByePacket.parse", "aiortc.rtp:RtcpRrPacket.parse"], twin="wire-dispatched", opts={"samples": 1}),
+    "rtcp-wire": Harness("rtcp-wire", h_rtcp_wire, lambda tier: [{"form": f} for f in ("bye-reason", "rr-bye-reason", "padded-rr", "unroutable-rr-then-nack", "sdes-then-bye", "sr-two-reports", "remb-two-ssrcs")], style="STEP", bounds="one datagram in each of seven forms (the last two: an SR with two report blocks and a REMB with two SSRCs, the second entry being the registered sender): three legal wire forms the library never produces itself (BYE with reason text, alone and after an RR; padded RR) and two compounds whose first packet has no recipient (RR about an unknown SSRC then NACK; SDES then BYE); one sender and two receivers with symbolic SSRCs", encoded=["aiortc.rtcdtlstransport:RTCDtlsTransport._handle_rtcp_data", "aiortc.rtcdtlstransport:RtpRouter.route_rtcp", "aiortc.rtp:RtcpPacket.parse", "aiortc.rtp:RtcpByePacket.parse", "aiortc.rtp:RtcpRrPacket.parse"], twin="wire-dispatched", opts={"samples": 1}),
     "register-rtx": Harness("register-rtx", h_register_rtx, lambda tier: [{"layout": l} for l in ("single", "rtx-on-later-codec")], style="STEP", bounds="two receivers sharing payload types 96/97 (and 98), four symbolic distinct SSRCs (media + RTX each); one encoding, or one encoding per media codec with the RTX companion on the second", encoded=["aiortc.rtcdtlstransport:RTCDtlsTransport._register_rtp_receiver", "aiortc.rtcdtlstransport:RtpRouter.route_rtp"], twin="receivers-registered", opts={"samples": 1}),
     "compound": Harness("compound", h_compound, lambda tier: [{"first": a, "second": b} for a in ("nack", "rr") for b in ("pli", "rr", "nack")], style="STEP", bounds="compound datagram of two RTCP packets (NACK/RR then PLI/RR/NACK) for two senders with symbolic distinct SSRCs; the first recipient unregisters the second while it handles its packet", encoded=["aiortc.rtcdtlstransport:RTCDtlsTransport._handle_rtcp_data", "aiortc.rtcdtlstransport:RtpRouter.route_rtcp"], twin="compound-dispatched", opts={"samples": 1}),
     "router": Harness(
